@@ -217,7 +217,8 @@ impl Driver for C09 {
                 }
                 out.case = case;
                 let symbols = g % 2 == 1;
-                let text = render(&toks, &nm, symbols);
+                // every fourth sequence without blanks around the operators that are not words
+                let text = render_spaced(&toks, &nm, symbols, g % 4 >= 2);
                 match compare(&toks, &text, &mut rng) {
                     Ok(k) => {
                         out.evals(k as u64);
@@ -238,11 +239,15 @@ impl Driver for C09 {
         for case in 0..250 {
             let toks = random_tokens(&mut rng, 12);
             let symbols = rng.gen_bool(0.5);
+            let tight = rng.gen_bool(0.4);
             if only.is_some_and(|o| o != case) {
                 continue;
             }
             out.case = case;
-            let text = render(&toks, &nm, symbols);
+            let text = render_spaced(&toks, &nm, symbols, tight);
+            if tight {
+                out.tag("operators-written-without-blanks");
+            }
             match compare(&toks, &text, &mut rng) {
                 Ok(0) => out.tag("outside-reference-grammar"),
                 Ok(k) => {
